@@ -6,8 +6,8 @@
    sync            sync_from_raft: for every replicated worker: existing local worker gets the replicated
                    assigned_pipelines, and the replicated status only when it is unhealthy / draining (a replicated
                    "ready" only refreshes last_heartbeat, which is not part of the view); unknown worker is added with
-                   the replicated status; local workers missing from the replicated state are dropped; groups,
-                   connectors and scaling policy are overwritten.
+                   the replicated status; local workers missing from the replicated state are dropped; groups and
+                   connectors are overwritten; the scaling policy only once one has been replicated (fix 2cac99e).
    delta           primitive local changes; cmd_of_delta = the ClusterCommand that replicates each
    op_kind         the operations of the property text; op_deltas = which primitive changes each performs
                    (read off coordinator.rs / api.rs); which commands each sends comes from the translator
@@ -45,7 +45,7 @@ Definition sync (rs : cstate) (v : view) : view :=
   {| v_workers := map (fun p => (fst p, merge_worker (mget (fst p) (v_workers v)) (snd p))) (workers rs);
      v_groups := pipeline_groups rs;
      v_connectors := connectors rs;
-     v_policy := scaling_policy rs |}.
+     v_policy := match scaling_policy rs with Some p => Some p | None => v_policy v end |}.
 
 (* ------------------------------------------------------------------ primitive local changes *)
 Inductive delta :=
@@ -153,7 +153,7 @@ Definition op_deltas (o : op_kind) : list dkind :=
   | OpConnectorCreate => [KSetConnector]
   | OpConnectorUpdate => [KSetConnector]
   | OpConnectorDelete => [KRemoveConnector]
-  | OpSetScalingPolicy => [KSetPolicy]
+  | OpSetScalingPolicy => []      (* start-up configuration of each coordinator; sync keeps it while nothing is replicated *)
   end.
 
 Definition op_name (o : op_kind) : string :=
